@@ -57,6 +57,15 @@ type Exp = Vec<(Ev, u64)>;
 /// Reference model. `tie(i)` = at an exact tie before source event `i`, did the
 /// timer side go first?
 fn model(op: &ROp, w: u64, t_sub: u64, evs: &[(u64, Ev)], tie: &dyn Fn(usize) -> bool, t_end: u64) -> Exp {
+  model_h(op, w, t_sub, evs, tie, &|_| false, t_end)
+}
+
+/// `hybrid(i)` (thread mode only): source event `i` and the window timer fall
+/// due at the same instant on two threads and interleave - the item is stored
+/// as the window's last one, the timer delivers it, and the item still finds
+/// the window closed and opens the next one. Nothing is lost, duplicated or
+/// reordered by that, and the statement does not order the two.
+fn model_h(op: &ROp, w: u64, t_sub: u64, evs: &[(u64, Ev)], tie: &dyn Fn(usize) -> bool, hybrid: &dyn Fn(usize) -> bool, t_end: u64) -> Exp {
   let mut out: Exp = Vec::new();
   let before = |deadline: u64, t: u64, i: usize| deadline < t || (deadline == t && tie(i));
   match op {
@@ -102,6 +111,14 @@ fn model(op: &ROp, w: u64, t_sub: u64, evs: &[(u64, Ev)], tie: &dyn Fn(usize) ->
               out.push((Ev::Next(v), we));
             }
             window_end = None;
+          }
+        }
+        if let (Some(we), Ev::Next(v)) = (window_end, e) {
+          if we == *t && tailing && !leading && hybrid(i) {
+            out.push((Ev::Next(v.clone()), we));
+            trailing = None;
+            window_end = Some(t + w);
+            continue;
           }
         }
         match e {
@@ -544,12 +561,16 @@ impl Scenario for C09Threads {
       }
     });
     let emitted = std::sync::Arc::new(std::sync::Mutex::new(Vec::<i64>::new()));
+    // (virtual time, event) of every source event, for the timed model
+    let timeline = std::sync::Arc::new(std::sync::Mutex::new(Vec::<(u64, Ev)>::new()));
+    let t_sub = shr.now();
     let mut bodies: Vec<Body> = Vec::new();
     {
       let mut hot = hot.clone();
       let script = case.script.clone();
       let complete = case.complete;
       let emitted = emitted.clone();
+      let timeline = timeline.clone();
       bodies.push(Box::new(move || {
         let mut n = 0i64;
         for op in &script {
@@ -557,6 +578,7 @@ impl Scenario for C09Threads {
             EOp::Emit => {
               n += 1;
               emitted.lock().unwrap().push(n);
+              timeline.lock().unwrap().push((shared().now(), Ev::Next(Val::I(n))));
               hot.next(Val::I(n));
             }
             EOp::Sleep(ms) => harness_sleep_ms(*ms as u64),
@@ -564,6 +586,7 @@ impl Scenario for C09Threads {
           harness_yield("between-ops");
         }
         if complete {
+          timeline.lock().unwrap().push((shared().now(), Ev::Complete));
           hot.complete();
         }
       }));
@@ -628,6 +651,57 @@ impl Scenario for C09Threads {
           rule: "c09.buffers-not-whole-source".into(),
           site: site.clone(),
           detail: format!("source emitted {:?} and completed; buffers [{}] do not concatenate to it", src_items, fmt_trace(&got)),
+        });
+      }
+    }
+    // timed model for debounce and throttle: virtual time only advances while
+    // every thread is blocked, so a timer can race a source event only at the
+    // instant it falls due - an exact tie, and either order is accepted
+    if violation.is_none() && matches!(case.op, ROp::Debounce | ROp::ThrottleLeading | ROp::ThrottleTailing | ROp::ThrottleAll) {
+      let evs = timeline.lock().unwrap().clone();
+      let t_end = shr.now();
+      let w_ns = case.w as u64 * MS;
+      let nt = evs.len().min(10);
+      let mut explained = false;
+      let mut first_exp = String::new();
+      for mask in 0..(1u32 << nt) {
+        let tie_fn = |i: usize| i < nt && mask & (1 << i) != 0;
+        let exp = model(&case.op, w_ns, t_sub, &evs, &tie_fn, t_end);
+        if mask == 0 {
+          first_exp = exp.iter().map(|(e, t)| format!("{}@{}", fmt_ev(e), t / MS)).collect::<Vec<_>>().join(" ");
+        }
+        if exp.len() == recs.len() && exp.iter().zip(recs.iter()).all(|((e, tmin), r)| *e == r.ev && r.t >= *tmin) {
+          explained = true;
+          break;
+        }
+      }
+      if !explained && case.op == ROp::ThrottleTailing {
+        'outer: for hmask in 1..(1u32 << nt) {
+          for mask in 0..(1u32 << nt) {
+            if mask & hmask != 0 {
+              continue;
+            }
+            let tie_fn = |i: usize| i < nt && mask & (1 << i) != 0;
+            let hy_fn = |i: usize| i < nt && hmask & (1 << i) != 0;
+            let exp = model_h(&case.op, w_ns, t_sub, &evs, &tie_fn, &hy_fn, t_end);
+            if exp.len() == recs.len() && exp.iter().zip(recs.iter()).all(|((e, tmin), r)| *e == r.ev && r.t >= *tmin) {
+              explained = true;
+              break 'outer;
+            }
+          }
+        }
+      }
+      if !explained {
+        violation = Some(Violation {
+          rule: "c09.timed-model".into(),
+          site: site.clone(),
+          detail: format!(
+            "window {}ms, source `{}`: delivered [{}]; the definition gives [{}] (or a variant differing only in the order of a source event and a timer falling due at the same instant)",
+            case.w,
+            evs.iter().map(|(t, e)| format!("{}@{}", fmt_ev(e), t / MS)).collect::<Vec<_>>().join(" "),
+            recs.iter().map(|r| format!("{}@{}", fmt_ev(&r.ev), r.t / MS)).collect::<Vec<_>>().join(" "),
+            first_exp
+          ),
         });
       }
     }
